@@ -322,6 +322,55 @@ def depth_of(v):
   if v[0] in (8, 9): return 1 + max([depth_of(x) for _, x in v[2]] + [0])
   return 0
 
+def dict_family():
+  """Small-scope family of dicts over one key set {'a','b'}: both insertion orders x plain / pg.Dict x every assignment of
+  three nearby values to the two keys (so members differ at 0, 1 or 2 keys, in the same or in opposite directions)."""
+  vals = [Iv(1), F(3, 1), Iv(2)]
+  out = []
+  for order in (('a', 'b'), ('b', 'a')):
+    for sym in (0, 1):
+      for va in vals:
+        for vb in vals:
+          d = {'a': va, 'b': vb}
+          out.append(Dv(sym, [(k, d[k]) for k in order]))
+  return out
+
+WRAPS = [None, 'list', 'pglist', 'field', 'value', 'pgvalue', 'deep']
+def wrap(v, how):
+  """The same context around every member of a family, so that the comparison reaches the members."""
+  if how is None: return v
+  if how == 'list': return Lv(0, [Iv(0), v])
+  if how == 'pglist': return Lv(1, [v, Sv('z')])
+  if how == 'field': return Ov('A', [('x', Iv(1)), ('y', v)])
+  if how == 'value': return Dv(0, [('k', v)])
+  if how == 'pgvalue': return Dv(1, [(1, Iv(0)), ('k', v)])
+  return Lv(0, [Dv(0, [('m', Ov('Zq', [('q', v), ('p', NONE)]))])])
+
+def keyed_family(rng, g, n):
+  """n dicts (or objects holding them) over ONE shared key set: insertion orders permuted independently (an earlier member's
+  order is reused half of the time, so several members share a possibly non-sorted order while others differ), the value
+  under each key drawn independently from a few nearby candidates (equal in another representation, or slightly different),
+  so members differ at several keys, in either direction; plain dict / pg.Dict / mixed; optionally nested."""
+  keys = g.keys(rng.choice([2, 2, 3, 3, 4]))
+  cand = {}
+  for k in keys:
+    base = canon(g.value(rng.choice([0, 0, 1]), under_sym=True), True)
+    cs = [base, canon(g.variant(base, True), True)]
+    for _ in range(rng.choice([1, 2])):
+      cs.append(canon(g.mutant(rng.choice(cs), True), True))
+    cand[json.dumps(mk_key(k))] = [c for c in cs if buildable(c, True)] or [Iv(0)]
+  flavour = rng.choice(['dict', 'dict', 'pgdict', 'mixed'])
+  how = rng.choice(WRAPS)
+  orders, out = [], []
+  for _ in range(n):
+    if orders and rng.random() < .5: order = rng.choice(orders)
+    else:
+      order = list(keys); rng.shuffle(order)
+    orders.append(order)
+    sym = flavour == 'pgdict' or (flavour == 'mixed' and rng.random() < .5)
+    out.append(canon(wrap(Dv(sym, [(k, rng.choice(cand[json.dumps(mk_key(k))])) for k in order]), how)))
+  return out
+
 def pool():
   """Small values for the small-scope sweep of all ordered pairs (tuples of numbers only)."""
   a1, b2 = ('a', Iv(1)), ('b', Iv(2))
@@ -484,6 +533,29 @@ def shrink_pair(ta, tb, clause):
       break
   return ta, tb
 
+def sub_triples(ts):
+  """Smaller triples to try when shrinking a failing triple: the items under one position / key of all three."""
+  out = []
+  if all(t[0] == 6 for t in ts) or all(t[0] == 7 for t in ts):
+    xs = [t[2] if t[0] == 6 else t[1] for t in ts]
+    out += [list(z) for z in zip(*xs)]
+  if all(t[0] in (8, 9) for t in ts):
+    ds = [{json.dumps(k): x for k, x in t[2]} for t in ts]
+    out += [[d[k] for d in ds] for k in ds[0] if all(k in d for d in ds)]
+  return out
+
+def shrink_triple(ts, clause):
+  for _ in range(20):
+    for sub in sub_triples(ts):
+      try:
+        if all(buildable(x) for x in sub) and any(c == clause for c, _ in triple_laws(*sub)):
+          ts = sub; break
+      except Exception:
+        continue
+    else:
+      break
+  return ts
+
 def signature(clause, ta, tb, detail=''):
   disc = dict_disc(ta, tb)
   if clause.endswith('raises'): disc = (disc + '/' if disc != '-' else '') + str(detail)
@@ -525,6 +597,24 @@ def make_cases(ctx):
   for _ in range(ctx.scale(1200, 30000)):
     vals = [rng.choice(P) for _ in range(3)]
     cases.append(dict(kind='triple', vals=vals, fam='num', dom=all(in_domain(v, 'num') for v in vals), src='pool'))
+  # (A3) dicts over a shared key set: all ordered pairs of the small family; triples of it (bare and nested)
+  DF = [canon(v) for v in dict_family()]
+  for a in DF:
+    for b in DF:
+      cases.append(dict(kind='pair', vals=[a, b], fam='num', dom=True, src='sweep-dicts'))
+  for _ in range(ctx.scale(1500, 40000)):
+    how = rng.choice(WRAPS)
+    vals = [canon(wrap(rng.choice(DF), how)) for _ in range(3)]
+    cases.append(dict(kind='triple', vals=vals, fam='num', dom=True, src='pool-dicts'))
+  # (A4) random families over a shared key set: pairs, triples, sorts
+  for n, count in ((2, ctx.scale(500, 8000)), (3, ctx.scale(500, 8000)), (5, ctx.scale(80, 1500))):
+    for _ in range(count):
+      fam = rng.choice(['num', 'str'])
+      vals = keyed_family(rng, Gen(rng, fam), n)
+      if not all(buildable(v) for v in vals): continue
+      dom = all(in_domain(v, fam) for v in vals)
+      if n == 5 and not dom: continue
+      cases.append(dict(kind={2: 'pair', 3: 'triple', 5: 'sort'}[n], vals=vals, fam=fam, dom=dom, src='keyed-family'))
   # (B) random pairs, (C) random triples
   def fresh(g, d):
     for _ in range(50):
@@ -600,6 +690,7 @@ def expand(case):
   return [([2, vals[0]], lambda: impl_probe(build(vals[0])))]
 
 _SELF = {}
+_PAIRC = {}
 def oracle(case):
   """-> [(signature, what, shrunk-case)] on the implementation."""
   k, vals = case['kind'], case['vals']
@@ -612,11 +703,17 @@ def oracle(case):
         if key not in _SELF:
           _SELF[key] = oracle(dict(kind='pair', vals=[v, v], fam=case['fam']))
         hits += _SELF[key]
+    ckey = json.dumps([a, b])
+    if ckey in _PAIRC:
+      return hits + _PAIRC[ckey]
+    mine = []
     for clause, detail in pair_laws(a, b):
       sa, sb = shrink_pair(a, b, clause)
       d2 = [d for c, d in pair_laws(sa, sb) if c == clause]
       detail = d2[0] if d2 else detail
-      hits.append((signature(clause, sa, sb, detail), '%s: a = %s, b = %s: %s' % (clause, show(sa), show(sb), detail), dict(kind='pair', vals=[sa, sb], fam=case['fam'])))
+      mine.append((signature(clause, sa, sb, detail), '%s: a = %s, b = %s: %s' % (clause, show(sa), show(sb), detail), dict(kind='pair', vals=[sa, sb], fam=case['fam'])))
+    _PAIRC[ckey] = mine
+    hits += mine
   elif k == 'triple':
     for i, j in ((0, 1), (1, 2), (0, 2), (1, 0), (2, 1), (2, 0)):
       hits += oracle(dict(kind='pair', vals=[vals[i], vals[j]], fam=case['fam']))
@@ -624,8 +721,10 @@ def oracle(case):
       import itertools
       for p in itertools.permutations(vals):
         for clause, detail in triple_laws(*p):
-          hits.append(('C06/%s/%s' % (clause, '-'.join(kind_of(v) for v in p)), '%s: a = %s, b = %s, c = %s: %s' % (clause, show(p[0]), show(p[1]), show(p[2]), detail),
-                       dict(kind='triple', vals=list(p), fam=case['fam'])))
+          q = shrink_triple(list(p), clause)
+          d2 = [d for c, d in triple_laws(*q) if c == clause]
+          hits.append(('C06/%s/%s' % (clause, '-'.join(kind_of(v) for v in q)), '%s: a = %s, b = %s, c = %s: %s' % (clause, show(q[0]), show(q[1]), show(q[2]), d2[0] if d2 else detail),
+                       dict(kind='triple', vals=q, fam=case['fam'])))
         if hits: break
   elif k == 'sort':
     for v in vals:
@@ -722,7 +821,7 @@ def run(ctx):
     if c['kind'] == 'pair':
       ctx.hist('pair_top_kinds', '%s/%s' % (kind_of(vals[0]), kind_of(vals[1])))
   for w, io in zip(wire, impl):
-    if w[0] == 0 and not desc[id(w)]['src'].startswith(('sweep', 'pool')):
+    if w[0] == 0 and not desc[id(w)]['src'].startswith(('sweep', 'pool', 'keyed')):
       n_pairs += 1
       rel = 'eq' if io[0] == 1 else 'lt' if io[2] == [0, 1] else 'gt' if io[3] == [0, 1] else 'raises' if (io[2][0] == 1 or io[3][0] == 1) else 'none-of-the-three'
       n_eq += io[0] == 1
@@ -740,7 +839,7 @@ def run(ctx):
   ctx.extra['oracle_evaluations'] = n_or
   # targeted search when something no longer checks and no failing input was found yet
   if ctx.is_broken() and not ctx.hits:
-    P = pool(); rng = ctx.rng
+    P = pool() + [canon(v) for v in dict_family()]; rng = ctx.rng
     for _ in range(ctx.scale(4000, 40000)):
       vals = [rng.choice(P) for _ in range(3)]
       for sig, what, shrunk in oracle(dict(kind='triple', vals=vals, fam='num')):
